@@ -1910,13 +1910,13 @@ class InterpOps:
                 # nothing can be learnt about the bounds
                 return True
             if op in ('Lt', 'Le'):
-                strict = op == 'Lt' and not negated
+                strict = op == 'Lt'      # (negated or not: neither operand can be NaN here, so not(a >= b) is a < b)
                 ok = self.refine_term(st, ta, -INF, fdown(bh) if strict else bh, keep_nan=negated) and \
                     self.refine_term(st, tb, fup(al) if strict else al, INF, keep_nan=negated)
                 if op == 'Lt' and ah <= bl and al == ah == bl == bh:
                     return False
             elif op in ('Gt', 'Ge'):
-                strict = op == 'Gt' and not negated
+                strict = op == 'Gt'
                 ok = self.refine_term(st, ta, fup(bl) if strict else bl, INF, keep_nan=negated) and \
                     self.refine_term(st, tb, -INF, fdown(ah) if strict else ah, keep_nan=negated)
             else:
